@@ -39,9 +39,11 @@ CFG = {
 
 def build():
     # the plain (no sanitizer) builds let the allocator reuse released blocks, which ASan's quarantine prevents
-    return {"cp": vlib.build_driver("config_plain", ["config.c"], extra_flags=("-rdynamic",), san=False),
+    nodeseam = dict(defines=("malloc=vf_malloc", "free=vf_free", "calloc=vf_calloc", "realloc=vf_realloc"),
+                    repo_sources=("mptcore/node/node_new.c", "mptcore/node/node_destroy.c"), extra_flags=("-rdynamic",))
+    return {"cp": vlib.build_driver("config_plain", ["config.c"], san=False, **nodeseam),
             "cxxp": vlib.build_driver("config_cxx_plain", ["config_cxx.cpp"], libs=("mptcore", "mpt++"), cxx=True, san=False),
-            "c": vlib.build_driver("config", ["config.c"], extra_flags=("-rdynamic",)),
+            "c": vlib.build_driver("config", ["config.c"], **nodeseam),
             "cxx": vlib.build_driver("config_cxx", ["config_cxx.cpp"], libs=("mptcore", "mpt++"), cxx=True)}
 
 
@@ -92,6 +94,8 @@ def match(exp, obs, step, rec, prev):
                 return "%s: paths %s: expected %s, observed %s" % (k, diff[:6], json.dumps([exp[k][i] for i in diff[:6]]),
                                                                    json.dumps([obs[k][i] for i in diff[:6]]))
             return "%s: expected %s, observed %s" % (k, json.dumps(exp[k]), json.dumps(obs[k]))
+    if "nodes" in obs and "nodes" in exp and obs["nodes"] != exp["nodes"]:
+        return "nodes: %d elements in the store, %d node blocks allocated" % (exp["nodes"], obs["nodes"])
     if not exp.get("anyret") and obs.get("ret") != exp.get("ret"):
         return "ret: expected %s, observed %s" % (json.dumps(exp.get("ret")), json.dumps(obs.get("ret")))
     return None
@@ -162,12 +166,19 @@ def binding_a(ck, exes, gencfg, impl, nt, samples, path, gen):
     label = tag.replace("Gen_Config_", "").replace("_t", "")
     total = nmm = 0
     failed = {}
-    for ch in common.chunks(path, 20000):
+    crashes = 0
+    cut = False
+    for ch in common.chunks(path, 10000):
         behs = vlib.parse_behaviours("".join(ch))
-        recs, _ = vlib.run_driver(exe, script(behs), env=FAST_ENV)
+        recs, _ = vlib.run_driver(exe, script(behs), env=FAST_ENV, timeout=900)
         for mm in vlib.compare(behs, recs, match):
             failed[common.callkey(behs[mm["b"]])] = behs[mm["b"]]
             nmm += 1
+            crashes += mm["why"] in ("Crash", "Hang")
+        if crashes > 300:       # a tree that crashes this often is reported from what was seen so far
+            total += len(behs)
+            cut = True
+            break
         for beh in behs:
             if nontrivial_a(beh):
                 nt.add(label + common.callkey(beh))
@@ -193,11 +204,11 @@ def binding_a(ck, exes, gencfg, impl, nt, samples, path, gen):
                 ck.violation(sig, {"binding": "A(replay)", "impl": impl, "behaviour": rootb[mm["b"]], "step": mm["i"],
                                    "why": mm["why"], "record": mm["rec"]})
     # (transitions into states beyond the bound are generated but not exported)
-    if not (gen.distinct - 1 <= total <= gen.generated - 1):
+    if not cut and not (gen.distinct - 1 <= total <= gen.generated - 1):
         raise vlib.MachineryError("behaviour export incomplete: %d lines for %d transitions" % (total, gen.generated - 1))
     ck.cov["evaluations"] += total
     ck.notes.setdefault("replay", []).append({"cfg": gencfg, "impl": label, "behaviours": total, "mismatches": nmm,
-                                              "mismatches_without_failed_prefix": roots, "signatures": persig,
+                                              "mismatches_without_failed_prefix": roots, "signatures": persig, "cut_after_crashes": cut,
                                               "tlc_wall_s": round(gen.wall, 1)})
 
 
